@@ -60,7 +60,8 @@ static std::string apply(const KeySpec &k, jwt_alg_t alg, int pay, std::string t
       std::string e = b64u_enc(b); return seg == 0 ? reb(e, tp.p, tp.s) : seg == 1 ? reb(tp.h, e, tp.s) : reb(tp.h, tp.p, e); }
   case M_RAW_BYTE: { if (t.empty()) return t; t[ua % t.size()] = (char)(1 + ub % 255); return t; }
   case M_TRUNC_SIG: { if (!tp.ok || tp.s.empty()) return t; size_t k2 = 1 + ua % std::min<size_t>(tp.s.size(), 6); return reb(tp.h, tp.p, tp.s.substr(0, tp.s.size() - k2)); }
-  case M_EXT_SIG: { if (!tp.ok) return t; std::string e; for (unsigned i = 0; i <= ua % 4; i++) e += B64U[(ub + i * 7) % 64]; return reb(tp.h, tp.p, (uc & 1) ? e + tp.s : tp.s + e); }
+  case M_EXT_SIG: { if (!tp.ok) return t; static const unsigned LN[] = {1, 2, 3, 4, 1, 2, 4, 255, 256, 257, 512, 768, 1024, 4096, 65536, 131072};   // incl. lengths whose low 8 / 16 bits are zero
+      std::string e; unsigned n = LN[ua % 16]; for (unsigned i = 0; i < n; i++) e += B64U[(ub + i * 7) % 64]; return reb(tp.h, tp.p, (uc & 1) ? e + tp.s : tp.s + e); }
   case M_PAD_JUNK: { static const char *J[] = {"=", "==", "=A", "=.", "==AAAA", "=\x01", "= "}; return t + J[ua % 7]; }
   case M_INSERT_DOT: { size_t pos = ua % (t.size() + 1); t.insert(pos, "."); return t; }
   case M_SIG_EMPTY: return tp.ok ? reb(tp.h, tp.p, "") : t;
